@@ -203,9 +203,16 @@ Section Dir.
   Definition delete_entry (ss : slots) (ev : Lfn.entry_view) : slots :=
     mark_deleted ss (Lfn.ev_begin ev / DIR_ENTRY_SIZE) (Lfn.ev_end ev / DIR_ENTRY_SIZE).
 
-  (* the slot part of Dir::remove once the entry is found and may be removed *)
-  Definition remove_entry (ss : slots) (name : str) : dres unit :=
-    lift (find_entry ss name None) ss (fun ev => (Ok tt, delete_entry ss ev)).
+  (* the slot part of Dir::remove: find the entry; "." and ".." directory entries are refused (InvalidInput); a
+     directory must be empty ([child_nonempty] = what is_empty() of the child reports, DirectoryIsNotEmpty); the cluster
+     chain is freed by the layer below; then the deletion loop *)
+  Definition is_special (ev : Lfn.entry_view) : bool :=
+    Lfn.ev_is_dir ev && (str_eqb (Lfn.ev_short ev) [46] || str_eqb (Lfn.ev_short ev) [46; 46]).
+  Definition remove_entry (ss : slots) (name : str) (child_nonempty : bool) : dres unit :=
+    lift (find_entry ss name None) ss (fun ev =>
+      if is_special ev then (Err EInvalidInput, ss)
+      else if Lfn.ev_is_dir ev && child_nonempty then (Err EDirectoryIsNotEmpty, ss)
+      else (Ok tt, delete_entry ss ev)).
 
   (* rename_internal with dst_dir = self.  ORDER of the code: find the source, check the destination, delete the
      source slots, then write the new entry (which may fail: D20). *)
